@@ -72,10 +72,17 @@ class P:
         a = self.primary()
         while True:
             if self.peek() == ".":
-                self.eat(); m = self.eat(); self.eat("(")
+                self.eat(); m = self.eat()
+                if self.peek() != "(":
+                    a = ("field", a, m); continue
+                self.eat("(")
+                if self.peek() == ")":
+                    self.eat(")"); a = ("call0", a, m); continue
                 arg = self.expr(); self.eat(")")
-                if m not in ("wrapping_add", "wrapping_sub"):
+                if m not in ("wrapping_add", "wrapping_sub", "swap"):
                     raise Unsupported("method " + m)
+                if m == "swap":
+                    raise Unsupported("swap in an expression")
                 a = (m, a, arg)
             elif self.peek() == "[":
                 self.eat(); ix = self.expr(); self.eat("]")
@@ -175,6 +182,67 @@ def translate(repo, rel, fname, consts):
         except Unsupported as ex:
             out.append("Stmt.unsupported %s" % lean_str("%s  [%s]" % (re.sub(r"\s+", " ", stmt), ex)))
     return out
+
+# ---------------------------------------------------------------------------------------------------------------
+# RC4 pseudo-random generation step -> WowSrp.MiniRust.RStmt terms
+
+SELF = ("name", "self")
+
+def to_r(e, locs):
+    k = e[0]
+    if k == "call0" and e[2] == "into": return to_r(e[1], locs)
+    if k == "field" and e[1] == SELF and e[2] in ("i", "j"): return "RExpr." + e[2]
+    if k == "call0" and e[1] == SELF and e[2] == "s_i": return "RExpr.sI"
+    if k == "call0" and e[1] == SELF and e[2] == "s_j": return "RExpr.sJ"
+    if k == "lit": return "RExpr.lit %d" % e[1]
+    if k == "name" and e[1] in locs: return 'RExpr.loc "%s"' % e[1]
+    if k == "wrapping_add": return "RExpr.wadd (%s) (%s)" % (to_r(e[1], locs), to_r(e[2], locs))
+    raise Unsupported("%r in an RC4 expression" % (e,))
+
+def parse_full(txt):
+    p = P(tokens(txt)); e = p.expr()
+    if p.peek() is not None:
+        raise Unsupported("trailing tokens in " + txt)
+    return e
+
+def rc4_prga(repo):
+    rel = "src/rc4.rs"
+    bad = lambda why: ('[RStmt.unsupported %s]' % lean_str(why), "RExpr.lit 0")
+    try:
+        text = gc.load(repo, rel)
+        body = gc.fn_body(text, "pseudo_random_generation", rel)
+        norm = lambda s: re.sub(r"\s+", "", s)
+        if norm(gc.fn_body(text, "s_i", rel)) != "{self.state[self.iasusize]}" or norm(gc.fn_body(text, "s_j", rel)) != "{self.state[self.jasusize]}":
+            return bad("s_i / s_j are not `self.state[self.i as usize]` / `self.state[self.j as usize]`")
+    except gc.Missing as ex:
+        return bad(str(ex))
+    inner = body.strip()[1:-1]
+    parts = [s.strip() for s in inner.split(";")]
+    stmts, locs = [], set()
+    final = parts[-1]
+    for st in [p for p in parts[:-1] if p]:
+        try:
+            m = re.fullmatch(r"self\s*\.\s*(i|j)\s*=\s*(.*)", st, re.S)
+            if m:
+                stmts.append("RStmt.set%s (%s)" % (m.group(1).upper(), to_r(parse_full(m.group(2)), locs))); continue
+            m = re.fullmatch(r"self\s*\.\s*state\s*\.\s*swap\s*\((.*)\)", st, re.S)
+            if m:
+                args = [a for a in re.split(r",(?![^(]*\))", m.group(1)) if a.strip()]
+                if len(args) != 2: raise Unsupported("swap arity")
+                stmts.append("RStmt.swap (%s) (%s)" % (to_r(parse_full(args[0]), locs), to_r(parse_full(args[1]), locs))); continue
+            m = re.fullmatch(r"let\s+(\w+)\s*(?::\s*\w+\s*)?=\s*(.*)", st, re.S)
+            if m:
+                stmts.append('RStmt.letv "%s" (%s)' % (m.group(1), to_r(parse_full(m.group(2)), locs))); locs.add(m.group(1)); continue
+            raise Unsupported("statement form")
+        except Unsupported as ex:
+            stmts.append("RStmt.unsupported %s" % lean_str("%s  [%s]" % (re.sub(r"\s+", " ", st), ex)))
+    try:
+        m = re.fullmatch(r"self\s*\.\s*state\s*\[(.*)\]", final, re.S)
+        if not m: raise Unsupported("result is not self.state[..]")
+        res = to_r(parse_full(re.sub(r"\bas\s+usize\b", "", m.group(1))), locs)
+    except Unsupported as ex:
+        stmts.append("RStmt.unsupported %s" % lean_str("%s  [%s]" % (final, ex))); res = "RExpr.lit 0"
+    return "[" + ", ".join(stmts) + "]", res
 
 # ---------------------------------------------------------------------------------------------------------------
 # header builders and parsers -> WowSrp.MiniLayout terms
@@ -371,8 +439,10 @@ def main():
                                    ("wrathSmallHeaderParse", "src/wrath_header/mod.rs", r"impl\s+ServerHeader\s*\{", "from_small_array", wconsts),
                                    ("wrathLargeHeaderParse", "src/wrath_header/mod.rs", r"impl\s+ServerHeader\s*\{", "from_large_array", wconsts)):
         B.append("/-- `%s` in %s -/\ndef %s : ParseSpec := %s" % (fn, rel, name, parser(repo, rel, hdr, fn, cs)))
-    text = ("/- GENERATED by tools/gen_code.py from the Rust sources on every run. Do not edit. -/\nimport WowSrp.Model.MiniRust\nimport WowSrp.Model.MiniLayout\n"
-            "namespace WowSrp.Gen.Code\nopen WowSrp.MiniRust WowSrp.MiniLayout\n\n" + "\n\n".join(L + B) + "\n\nend WowSrp.Gen.Code\n")
+    rs, rr = rc4_prga(repo)
+    B.append("/-- `Rc4::pseudo_random_generation` in src/rc4.rs: statements and the index of the returned table entry -/\ndef rc4PrgaBody : List RStmt := %s\ndef rc4PrgaResult : RExpr := %s" % (rs, rr))
+    text = ("/- GENERATED by tools/gen_code.py from the Rust sources on every run. Do not edit. -/\nimport WowSrp.Model.MiniRust\nimport WowSrp.Model.MiniLayout\nimport WowSrp.Model.MiniRc4\n"
+            "namespace WowSrp.Gen.Code\nopen WowSrp.MiniRust WowSrp.MiniLayout WowSrp.MiniRc4\n\n" + "\n\n".join(L + B) + "\n\nend WowSrp.Gen.Code\n")
     old = open(outp).read() if os.path.exists(outp) else None
     if old != text:
         os.makedirs(os.path.dirname(outp), exist_ok=True)
